@@ -161,7 +161,7 @@ KIND_WEIGHTS = {
     "off": {"surface": 14, "polyline": 1, "pointcloud": 1, "tets": 2, "hexes": 2},
     "tet": {"surface": 2, "polyline": 1, "pointcloud": 1, "tets": 10, "hexes": 6},
     "xyz": {"surface": 3, "polyline": 2, "pointcloud": 11, "tets": 2, "hexes": 2},
-    "stl": {"surface": 15, "polyline": 1, "pointcloud": 1, "tets": 2, "hexes": 1},
+    "stl": {"surface": 24, "polyline": 1, "pointcloud": 1, "tets": 3, "hexes": 2},   # (zero-facet files are loaded in a child process: keep them few)
 }
 
 
@@ -196,6 +196,16 @@ def mesh_content(draw, fmt):
     elif kind == "surface":
         s = draw(G.surfaces(max_faces=40, keep_isolated=draw(st.integers(0, 5)) == 0))
         Vg, F = s["V"], s["F"]
+        if fmt == "stl" and any(len(f) > 4 for f in F) and draw(st.integers(0, 5)) != 0:
+            # stl takes triangles and quads only: cut larger polygons into quads (+ one triangle) so that most cases are writable
+            F2 = []
+            for f in F:
+                f = list(f)
+                while len(f) > 4:
+                    F2.append(f[:4]); f = [f[0]] + f[3:]
+                F2.append(f)
+            if G._valid(Vg, F2):
+                F = F2
         tags += [t for t in s["tags"] if not t.startswith("op=")]
         sides = sorted(set(skey((f[i], f[(i + 1) % len(f)])) for f in F for i in range(len(f))))
         mode = draw(st.sampled_from(["none", "some", "some", "all"]))
@@ -306,7 +316,10 @@ def case_strategy(draw, fmt):
     c["fmt"] = fmt
     c["cfg"] = {"export_edges_in_obj": draw(st.sampled_from([True, True, True, False])) if fmt == "obj" else True,
                 "complete_edges_from_faces": draw(st.sampled_from([True, True, True, False]))}
-    ig = draw(st.sampled_from([None] * 8 + [["edges"], ["faces"], ["cells"], ["edges", "faces"], ["faces", "cells"], []]))
+    if fmt == "stl":
+        ig = draw(st.sampled_from([None] * 14 + [["edges"], ["faces"], ["cells"]]))
+    else:
+        ig = draw(st.sampled_from([None] * 8 + [["edges"], ["faces"], ["cells"], ["edges", "faces"], ["faces", "cells"], []]))
     c["ignore"] = ig
     attrs = []
     if fmt == "geogram_ascii":
@@ -326,6 +339,7 @@ def case_strategy(draw, fmt):
                       "vals": draw(st.lists(st.tuples(st.integers(0, 10 ** 4), st.lists(coord(), min_size=3, max_size=3)).map(list), max_size=5)),
                       "fill": draw(st.sampled_from([None, 1, 2]))})
     c["attrs"] = attrs
+    c["ext_upper"] = draw(st.integers(0, 7)) == 0
     c["var"] = {"blank": draw(st.booleans()), "spaces": draw(st.booleans()), "floats": draw(st.sampled_from(["repr", "repr", "17g", "17e"])),
                 "seed": draw(st.integers(0, 11)), "face_style": draw(st.sampled_from(["v", "v", "v/vt", "v//vn", "v/vt/vn"])),
                 "dim_two_lines": draw(st.booleans()), "refs": draw(st.booleans()), "extra_blocks": draw(st.booleans()),
@@ -558,16 +572,46 @@ def project(N, fmt, cfg, ignore):
 
 
 def stl_soup(V, F):
-    """triangles (as coordinate triples rounded to float32) the stl writer must emit; None if a face has > 4 vertices"""
-    tris = []
+    """What an stl file of faces F must hold: one entry per face = list of acceptable triangle lists (coordinates rounded to
+    float32). A triangle keeps its vertex order; a quad becomes two triangles along either diagonal, each in any rotation.
+    None if a face has > 4 vertices."""
+    def co(t):
+        return [[f32(x) for x in V[v]] for v in t]
+    out = []
     for f in F:
         if len(f) == 3:
-            tris.append([f[0], f[1], f[2]])
+            out.append({"n": 1, "exact": [co(f)]})
         elif len(f) == 4:
-            tris.append([f[0], f[1], f[2]]); tris.append([f[2], f[3], f[0]])
+            a, b, c, d = f
+            out.append({"n": 2, "splits": [[co((a, b, c)), co((a, c, d))], [co((b, c, d)), co((b, d, a))]]})
         else:
             return None
-    return [[[f32(x) for x in V[v]] for v in t] for t in tris]
+    return out
+
+
+def rot_eq(t, u):
+    return any(same_coords(t[k:] + t[:k], u) for k in range(3))
+
+
+def soup_matches(tris, soup):
+    """(ok, message): list of triangles (coordinate triples) against stl_soup()"""
+    if len(tris) != sum(e["n"] for e in soup):
+        return False, f"{len(tris)} triangles, expected {sum(e['n'] for e in soup)}"
+    k = 0
+    for i, e in enumerate(soup):
+        if e["n"] == 1:
+            if not same_coords(tris[k], e["exact"][0]):
+                return False, f"triangle {k} (face {i}): corners {tris[k]}, expected {e['exact'][0]}"
+        else:
+            t1, t2 = tris[k], tris[k + 1]
+            if not any((rot_eq(t1, s[0]) and rot_eq(t2, s[1])) or (rot_eq(t1, s[1]) and rot_eq(t2, s[0])) for s in e["splits"]):
+                return False, f"triangles {k},{k + 1} (quad face {i}): {t1}, {t2} are not a split of the quad {e['splits'][0]}"
+        k += e["n"]
+    return True, ""
+
+
+def soup_corners(soup):
+    return [v for e in soup for t in (e["exact"] if e["n"] == 1 else e["splits"][0]) for v in t]
 
 
 # ================================================================================================ comparisons
@@ -577,13 +621,19 @@ def short(x, n=260):
     return s if len(s) <= n else s[:n] + "..."
 
 
-def compare_loaded(ctx, pre, snap, exp, what):
+def by_kind(rows):
+    """stable partition by arity (medit stores one block per element kind: order is kept within a kind only)"""
+    return sorted(rows, key=len)
+
+
+def compare_loaded(ctx, pre, snap, exp, what, per_kind=False):
     """loaded mesh (snapshot) against the expected normal form. Returns True if everything agreed."""
     ok = True
+    kind = by_kind if per_kind else list
     ok &= bool(ctx.check(same_coords(snap["V"], exp["V"]), pre + ":coords", f"{what}: {first_coord_diff(snap['V'], exp['V'])}"))
-    ok &= bool(ctx.check(snap["C"] == exp["C"], pre + ":cells", f"{what}: cells {short(snap['C'])}, expected {short(exp['C'])}"))
+    ok &= bool(ctx.check(kind(snap["C"]) == kind(exp["C"]), pre + ":cells", f"{what}: cells {short(snap['C'])}, expected {short(exp['C'])}"))
     nF = exp["nF_decl"]
-    okf = snap["F"][:nF] == exp["F"][:nF] and sorted(map(skey, snap["F"])) == sorted(map(skey, exp["F"]))
+    okf = kind(snap["F"][:nF]) == kind(exp["F"][:nF]) and sorted(map(skey, snap["F"])) == sorted(map(skey, exp["F"]))
     ok &= bool(ctx.check(okf, pre + ":faces", f"{what}: faces {short(snap['F'])}, expected {short(exp['F'])} (first {nF} in this order, the rest as a set)"))
     nE = exp["nE_decl"]
     oke = [skey(e) for e in snap["E"][:nE]] == exp["E"][:nE] and sorted(map(skey, snap["E"])) == sorted(exp["E"]) \
@@ -607,19 +657,12 @@ def compare_soup(ctx, pre, snap, soup, what, merged, exact64=None):
             ctx.fail(pre + ":faces", f"{what}: loaded face {f} is not a triangle over {nV} vertices")
             return False
         got.append([snap["V"][v] for v in f])
-    ref = exact64 if exact64 is not None else soup
-    same = len(got) == len(ref) and all(same_coords(a, b) for a, b in zip(got, ref))
-    msg = ""
-    if not same:
-        msg = f"{len(got)} triangles vs {len(ref)} expected"
-        for k, (a, b) in enumerate(zip(got, ref)):
-            if not same_coords(a, b):
-                msg = f"triangle {k}: corners {a}, expected {b}"
-                break
+    same, msg = soup_matches(got, exact64 if exact64 is not None else soup)
     ok = bool(ctx.check(same, pre + ":soup", f"{what}: {msg}"))
     if ok and merged:
-        lo = len(set(tuple(0.0 if x == 0 else x for x in v) for t in soup for v in t))
-        hi = len(set(tuple(bits(x) for x in v) for t in soup for v in t))
+        corners = soup_corners(soup)
+        lo = len(set(tuple(0.0 if x == 0 else x for x in v) for v in corners))
+        hi = len(set(tuple(bits(x) for x in v) for v in corners))
         ok &= bool(ctx.check(lo <= nV <= hi, pre + ":merge", f"{what}: {nV} vertices loaded for {hi} distinct corner positions (coincident corners must be merged, nothing else)"))
     if not soup:
         ok &= bool(ctx.check(nV == 0, pre + ":coords", f"{what}: {nV} vertices loaded from a file without facets"))
@@ -652,6 +695,8 @@ def label_case(case, ctx, N):
     ctx.label("complete_edges=" + str(case["cfg"]["complete_edges_from_faces"]))
     if fmt == "obj":
         ctx.label("export_edges=" + str(case["cfg"]["export_edges_in_obj"]))
+    if case.get("ext_upper"):
+        ctx.label("extension=UPPER")
     if case.get("ignore") is not None:
         ctx.label("ignore=" + "+".join(case["ignore"]))
     for a in case.get("attrs", []):
@@ -689,7 +734,7 @@ def fn_roundtrip(case, ctx):
     P = project(N, fmt, cfg, ignore)
     d = tempfile.mkdtemp(prefix="c04_")
     try:
-        path = os.path.join(d, "m." + fmt)
+        path = os.path.join(d, "m." + (fmt.upper() if case.get("ext_upper") else fmt))
         soup = stl_soup(N["V"], P["F"]) if fmt == "stl" else None
         try:
             if ignore is None:
@@ -723,8 +768,8 @@ def fn_roundtrip(case, ctx):
             if fmt == "stl":
                 r = R.read_stl(data)
                 file_ok &= bool(ctx.check(r["kind"] == "binary", "file:kind", "stl file is not a consistent binary stl"))
-                same = len(r["tris"]) == len(soup) and all(same_coords(a, b) for a, b in zip(r["tris"], soup))
-                file_ok &= bool(ctx.check(same, "file:soup", f"triangles in the file {short(r['tris'])}, expected {short(soup)}"))
+                same, msg = soup_matches(r["tris"], soup)
+                file_ok &= bool(ctx.check(same, "file:soup", f"triangles in the file: {msg}"))
             else:
                 text = data.decode("utf-8")
                 r = {"obj": R.read_obj, "mesh": R.read_medit, "geogram_ascii": R.read_geogram, "off": R.read_off, "tet": R.read_tet,
@@ -788,7 +833,7 @@ def fn_roundtrip(case, ctx):
             compare_soup(ctx, "rt", snap, soup, "load(save(m))", merged=True)
             return
         exp = normalise(P["V"], Pe, P["F"], P["C"], cfg["complete_edges_from_faces"], hard_attr=P["hard_attr"])
-        same = compare_loaded(ctx, "rt", snap, exp, "load(save(m))")
+        same = compare_loaded(ctx, "rt", snap, exp, "load(save(m))", per_kind=(fmt == "mesh"))
 
         # ---------------- oracle 4: attributes (geogram) / normals (xyz)
         if loaded is None:
@@ -840,7 +885,7 @@ def fn_ext(case, ctx):
     ctx.label("var:floats=" + var["floats"])
     d = tempfile.mkdtemp(prefix="c04_")
     try:
-        path = os.path.join(d, "x." + fmt)
+        path = os.path.join(d, "x." + (fmt.upper() if case.get("ext_upper") else fmt))
         extra = {}
         if fmt == "obj":
             ctx.label("var:face_style=" + var["face_style"])
@@ -909,13 +954,14 @@ def fn_ext(case, ctx):
         snap, loaded = res if isinstance(res, tuple) else (res, None)
         what = f"file written by the independent {fmt} writer"
         if fmt == "stl":
-            soup32 = [[[f32(x) for x in v] for v in t] for t in tris]
+            soup32 = [{"n": 1, "exact": [[[f32(x) for x in v] for v in t]]} for t in tris]
             if var["stl_kind"] == "binary":
                 compare_soup(ctx, "ext", snap, soup32, what, merged=True)
             else:
-                compare_soup(ctx, "ext", snap, soup32, what, merged=False, exact64=[[list(map(float, v)) for v in t] for t in tris])
+                compare_soup(ctx, "ext", snap, soup32, what, merged=False,
+                             exact64=[{"n": 1, "exact": [[list(map(float, v)) for v in t]]} for t in tris])
             return
-        same = compare_loaded(ctx, "ext", snap, exp, what)
+        same = compare_loaded(ctx, "ext", snap, exp, what, per_kind=(fmt == "mesh"))
         if not same or loaded is None:
             return
         # side data carried by the foreign file
@@ -964,8 +1010,8 @@ def fn_ext(case, ctx):
 NAMES = {"obj": "obj", "mesh": "medit", "geogram_ascii": "geogram", "off": "off", "tet": "tet", "xyz": "xyz", "stl": "stl"}
 SUBCHECKS = []
 for _f in FORMATS:
-    SUBCHECKS.append(SubCheck(NAMES[_f], case_strategy(_f), fn_roundtrip, quick=160, thorough=1500))
-    SUBCHECKS.append(SubCheck(NAMES[_f] + "_ext", case_strategy(_f), fn_ext, quick=120, thorough=1000))
+    SUBCHECKS.append(SubCheck(NAMES[_f], case_strategy(_f), fn_roundtrip, quick=120 if _f == "stl" else 160, thorough=1500))
+    SUBCHECKS.append(SubCheck(NAMES[_f] + "_ext", case_strategy(_f), fn_ext, quick=80 if _f == "stl" else 120, thorough=1000))
 
 
 # ---------------------------------------------------------------------------------------------- proposed known findings
